@@ -41,6 +41,7 @@ ASSUMPTIONS = ['scheduling points are line events in frames of <repo>/pydbml (py
 
 def bounds(tier):
     return {'two_preemption_pairs_call_granularity': 0 if tier == 'quick' else len(SCHED2_PAIRS), 'three_thread_triples': 0 if tier == 'quick' else len(SCHED3_TRIPLES),
+            'cold_start_shared_write_pairs': 0 if tier == 'quick' else len(SCHEDW_PAIRS),
             'history_length_full_alphabet': 2, 'history_length_reduced_alphabet': 3 if tier == 'quick' else 4, 'reduced_alphabet': len(reduced(tier)), 'preemptions': 1,
             'threads': 2, 'schedule_pairs': len(sched_pairs(tier)), 'calls': len(CALLS)}
 
@@ -306,6 +307,7 @@ def sched_pairs(tier):
 
 
 SCHED2_PAIRS = [(('table', 'default'), ('props', 'props')), (('props', 'props'), ('semantic', 'default'))]
+SCHEDW_PAIRS = [(('table', 'default'), ('props', 'props')), (('full', 'default'), ('semantic', 'default')), (('props', 'props'), ('props', 'props'))]
 SCHED3_TRIPLES = [(('table', 'default'), ('props', 'props'), ('semantic', 'default')), (('enum', 'default'), ('enum', 'default'), ('syntax-last', 'props'))]
 
 
@@ -316,12 +318,27 @@ def body_for(call):
     return f
 
 
+_SHARED_IDS = None
+
+
+def shared_ids():
+    global _SHARED_IDS
+    if _SHARED_IDS is None:
+        _SHARED_IDS = {id(e) for e in heap.shared_elements()}
+    return _SHARED_IDS
+
+
 def run_schedule(p, pair, first, switches, cold, case, granularity='line'):
     if cold:
         heap.cold_reset()
     bodies = [body_for(c) for c in pair]
+    probe = None
+    if granularity == 'writes':
+        import pyparsing
+        probe = (pyparsing.ParserElement, shared_ids())
     try:
-        results, counts, log = sched.run(bodies, first=first, switches=switches, prefix=os.path.join(REPO, 'pydbml') + os.sep, granularity=granularity)
+        results, counts, log = sched.run(bodies, first=first, switches=switches, prefix=os.path.join(REPO, 'pydbml') + os.sep, granularity=granularity,
+                                         write_probe=probe)
     except RuntimeError as e:
         p['violations'].append(violation(PID, 'schedule-hangs', dict(case, first=first, switches=[list(s) for s in switches]), detail=str(e)))
         return None
@@ -394,6 +411,30 @@ def explore_two_preemptions(p, pair, chunk, nchunks):
     check_census(p, case, f'after the two-preemption schedules of {pair}')
 
 
+def explore_cold_writes(p, pair, chunk, nchunks):
+    """cold start, scheduling points = every attribute write to a shared grammar element (pyparsing's lazy set-up, run by whichever
+    thread parses first): the first thread is preempted at each of its writes, the other does the remaining set-up and its whole
+    parse, the first resumes"""
+    case = {'mode': 'schedw', 'pair': [list(pair[0]), list(pair[1])], 'cold': True, 'granularity': 'writes'}
+    total = 0
+    for t in (0, 1):
+        c = run_schedule(p, pair, t, (), True, case, 'writes')
+        if c is None:
+            return
+        n = c[t]
+        total += n
+        for k in range(n):
+            if k % nchunks != chunk:
+                continue
+            run_schedule(p, pair, t, ((t, k),), True, case, 'writes')
+            p['states'] += 1
+            p['traces'] += 1
+            p['nontrivial'].add(digest([case, t, k]))
+    p['outcomes']['schedw/explored'] += 1
+    p['extra']['cold_start_shared_write_points'] = total if chunk == 0 else 0
+    check_census(p, case, f'after the cold-start write-point schedules of {pair}')
+
+
 def explore_three_threads(p, triple, chunk, nchunks):
     """3 threads, one preemption at line granularity: thread t is preempted at its k-th point, the other two run to completion in
     order, t resumes; for every t and k, plus the three unpreempted orders"""
@@ -416,6 +457,42 @@ def explore_three_threads(p, triple, chunk, nchunks):
             p['nontrivial'].add(digest([case, t, k]))
     p['outcomes']['sched3/explored'] += 1
     check_census(p, case, f'after the three-thread schedules of {triple}')
+
+
+def free_running(p, rounds=2, nthreads=6):
+    """Supplementary, not deciding: OS threads running the whole call alphabet concurrently without any tracing and with a very
+    short switch interval — the cooperative scheduler's hand-offs are happens-before edges, so this pass is the one place where
+    the interpreter preempts wherever it likes.  Every outcome must still equal the isolated outcome."""
+    import sys as _sys
+    import threading
+    old = _sys.getswitchinterval()
+    _sys.setswitchinterval(1e-6)
+    bad = []
+    lock = threading.Lock()
+
+    def body(offset):
+        for r in range(rounds):
+            for k in range(len(CALLS)):
+                call = CALLS[(k * 7 + offset * 5 + r) % len(CALLS)]
+                out, db = do_call(call)
+                if out != ISOLATED[call]:
+                    with lock:
+                        bad.append(call)
+    try:
+        ts = [threading.Thread(target=body, args=(i,)) for i in range(nthreads)]
+        for t in ts:
+            t.start()
+        for t in ts:
+            t.join()
+    finally:
+        _sys.setswitchinterval(old)
+    p['evaluations'] += rounds * nthreads * len(CALLS)
+    p['extra']['free_running_calls'] = rounds * nthreads * len(CALLS)
+    p['outcomes']['freerun/' + ('all-equal' if not bad else 'differs')] += 1
+    if bad:
+        p['violations'].append(violation(PID, 'outcome-differs-under-free-running-threads', {'mode': 'freerun', 'calls': [list(c) for c in bad[:5]]},
+                                         detail=f'{len(bad)} calls gave a different outcome while {nthreads} threads parsed concurrently, e.g. {bad[0]}'))
+    check_census(p, {'mode': 'freerun'}, 'after the free-running pass')
 
 
 # ------------------------------------------------------------------------------------------------
@@ -475,6 +552,7 @@ def units(tier, seed):
                 us.append(('sched', (k, cold, ch, NCH), tier))
     for k in range(0, len(CALLS), 13):
         us.append(('fresh', k, tier))
+    us.append(('freerun', 0, tier))
     if tier != 'quick':
         for pi in range(len(SCHED2_PAIRS)):
             for ch in range(16):
@@ -482,6 +560,9 @@ def units(tier, seed):
         for ti in range(len(SCHED3_TRIPLES)):
             for ch in range(8):
                 us.append(('sched3', (ti, ch, 8), tier))
+        for pi in range(len(SCHEDW_PAIRS)):
+            for ch in range(32):
+                us.append(('schedw', (pi, ch, 32), tier))
     return us
 
 
@@ -522,6 +603,13 @@ def work(unit):
         pi, ch, nch = k
         explore_two_preemptions(p, SCHED2_PAIRS[pi], ch, nch)
         p['samples'].append({'mode': 'sched2', 'pair': [list(c) for c in SCHED2_PAIRS[pi]], 'preemptions': 2, 'granularity': 'call'})
+    elif mode == 'freerun':
+        free_running(p, rounds=2 if tier == 'quick' else 6)
+        p['samples'].append({'mode': 'freerun', 'threads': 6, 'note': 'supplementary pass, not the deciding step'})
+    elif mode == 'schedw':
+        pi, ch, nch = k
+        explore_cold_writes(p, SCHEDW_PAIRS[pi], ch, nch)
+        p['samples'].append({'mode': 'schedw', 'pair': [list(c) for c in SCHEDW_PAIRS[pi]], 'preemptions': 1, 'points': 'writes to shared grammar elements, cold start'})
     elif mode == 'sched3':
         ti, ch, nch = k
         explore_three_threads(p, SCHED3_TRIPLES[ti], ch, nch)
@@ -563,11 +651,13 @@ def replay(case):
             run_schedule(p, pair, case['first'], tuple(tuple(s) for s in case['switches']), case['cold'], {k: case[k] for k in ('mode', 'pair', 'cold')})
         else:
             explore_pair(p, pair, case['cold'], 'quick')
-    elif case['mode'] in ('sched2', 'sched3'):
+    elif case['mode'] in ('sched2', 'sched3', 'schedw'):
         calls = tuple(tuple(c) for c in case['pair'])
         if 'switches' in case:
-            run_schedule(p, calls, case['first'], tuple(tuple(s) for s in case['switches']), False, {k: case[k] for k in ('mode', 'pair', 'cold')},
+            run_schedule(p, calls, case['first'], tuple(tuple(s) for s in case['switches']), case.get('cold', False), {k: case[k] for k in ('mode', 'pair', 'cold')},
                          case.get('granularity', 'line'))
+    elif case['mode'] == 'freerun':
+        free_running(p)
     elif case['mode'] == 'fresh':
         check_fresh(p, [tuple(case['call'])])
     else:
